@@ -244,6 +244,40 @@ let check (case : Sexp.t) : unit =
                      (List.combine (List.combine ds toks) (List.combine rv a.a_mat)))
               | Some _, List [Atom "v"; _] -> bump "distance_skipped_mirror"
               | _, o -> viol "distance" (Printf.sprintf "x=%s impl=%s outcome differs from the model" xs (Sexp.to_string o)))
+           | List (Atom "draw" :: Atom k :: rest) ->
+             (* distances_raw on the first k points as columns: column j = distance_raw of point j (C14_distances_raw) *)
+             bump "distances_raw";
+             let k = int_of_string k in
+             let xvs = List.filter_map (function List (Atom "pt" :: x :: _) -> Some (vec_of x) | _ -> None) pts in
+             let cols_in = List.filteri (fun i _ -> i < k) xvs in
+             (match p_distances_raw a cols_in, rest with
+              | None, [Atom "panic"] -> bump "distances_raw_both_reject"
+              | Some d, (Atom m :: cols) when List.length cols = List.length d ->
+                if int_of_string m <> List.length a.a_bias then
+                  viol "draw" (Printf.sprintf "result has %s rows, polytope has %d" m (List.length a.a_bias));
+                List.iteri (fun j (c, (rv, xv)) ->
+                    let xs = string_of_vec xv in
+                    match c with
+                    | List [Atom "v"; w] ->
+                      (match (try Some (vec_of w) with Nonfinite -> None) with
+                       | Some wv when List.length wv = List.length rv ->
+                         if exact && List.for_all small_dyadic xv then begin
+                           if not (veqb wv rv) then viol "draw" (Printf.sprintf "column %d x=%s impl=%s model=%s" j xs (string_of_vec wv) (string_of_vec rv))
+                           else bump "distances_raw_columns_exact"
+                         end else if mirror && not (List.for_all2 (fun u v -> close_abs_rel u v (-36)) wv rv) then
+                           viol "draw" (Printf.sprintf "column %d x=%s impl=%s model=%s (tolerance 2^-36)" j xs (string_of_vec wv) (string_of_vec rv))
+                       | _ -> viol "draw" (Printf.sprintf "column %d x=%s impl=%s model=%s" j xs (Sexp.to_string w) (string_of_vec rv)))
+                    | _ -> viol "draw" "column expected")
+                  (List.combine cols (List.combine d cols_in))
+              | Some d, [Atom "panic"] ->
+                viol "draw" (Printf.sprintf "distances_raw panicked on %d points of the right length (%d rows, dimension %d); model: one column of raw distances per point"
+                               (List.length cols_in) (List.length a.a_bias) (int_of_nat a.a_in))
+              | _, o -> viol "draw" (Printf.sprintf "impl=%s outcome differs from the model" (Sexp.to_string (List o))))
+           | List (Atom "drawbad" :: Atom _ :: rest) ->
+             (* points with the wrong number of coordinates: mat.dot panics *)
+             (match rest with
+              | [Atom "panic"] -> bump "distances_raw_both_reject"
+              | o -> viol "draw" (Printf.sprintf "points of the wrong length accepted: %s" (Sexp.to_string (List o))))
            | _ -> raise (Parse_error "pt")) pts
        end);
     (* apply_post: the generator promises M = inverse of inverse_mat on the well-formed stream *)
